@@ -724,6 +724,16 @@ func FaultTable() []FaultRow {
 		return &Op{K: "CacheUnregisterStale", ID: g.R.Intn(len(g.S.stale))}
 	})
 
+	for v, nm := range []string{"Query", "RemoveEntities", "Batch.Add", "Batch.Remove", "Batch.AddQ", "Batch.SetRelation"} {
+		v := v
+		add("cache.stale."+nm, true, func(g *Gen) *Op {
+			if len(g.S.stale) == 0 || len(g.S.IDs) == 0 {
+				return nil
+			}
+			return &Op{K: "CacheUseStale", ID: g.R.Intn(len(g.S.stale)), Trav: v + 6*g.R.Intn(5), Add: []int{g.R.Intn(len(g.S.IDs))}}
+		})
+	}
+
 	// ---- type limit
 	add("limit.component", true, func(g *Gen) *Op {
 		if len(g.S.IDs) < ecs.MaskTotalBits {
